@@ -42,20 +42,17 @@ Definition blen (b : bytes) : Z := Z.of_nat (length b).
 Definition chunk (b : bytes) : bytes := le8 (blen b) ++ b.
 
 (* an argument as the key function sees it *)
-Inductive atom :=
-| Arr (dt sh data : bytes)   (* ndarray: dtype.str, str(shape), C-order data *)
-| Oth (ty repr : bytes).     (* anything else: type(arg).__name__, str(arg) *)
-
 Inductive arg :=
-| One (a : atom)
-| Lst (l : list atom).       (* a Python list of such things (flat) *)
+| Arr (dt sh data : bytes)   (* ndarray: dtype.str, str(shape), C-order data *)
+| Oth (ty repr : bytes)      (* anything else: type(arg).__name__, str(arg) *)
+| Lst (l : list arg).        (* a Python list (of arrays, other things, lists) *)
 
 Record sig := {
   s_pos : list arg;                 (* *args *)
   s_kw : list (bytes * arg);        (* **kwargs, sorted by name *)
-  s_name : atom;                    (* func.__name__ *)
-  s_doc : atom;                     (* func.__doc__ (str or None) *)
-  s_file : atom                     (* func.__code__.co_filename *)
+  s_name : arg;                     (* func.__name__ *)
+  s_doc : arg;                      (* func.__doc__ (str or None) *)
+  s_file : arg                      (* func.__code__.co_filename *)
 }.
 
 Definition t_ndarray : bytes := [110; 100; 97; 114; 114; 97; 121].
@@ -65,37 +62,33 @@ Definition t_kwargs : bytes := [107; 119; 97; 114; 103; 115].
 Definition t_str : bytes := [115; 116; 114].
 
 (* --- the unrepaired key: md5 is fed the plain concatenation ------------- *)
-Definition old_atom (a : atom) : bytes :=
-  match a with Arr _ _ d => d | Oth _ r => r end.
-
-Definition old_arg (x : arg) : bytes :=
-  match x with One a => old_atom a | Lst l => flat_map old_atom l end.
+Fixpoint old_arg (x : arg) : bytes :=
+  match x with
+  | Arr _ _ d => d
+  | Oth _ r => r
+  | Lst l => flat_map old_arg l
+  end.
 
 Definition key_old (c : sig) : bytes :=
   flat_map old_arg (s_pos c)
   ++ flat_map (fun kv => fst kv ++ old_arg (snd kv)) (s_kw c)
-  ++ old_atom (s_name c) ++ old_atom (s_doc c) ++ old_atom (s_file c).
+  ++ old_arg (s_name c) ++ old_arg (s_doc c) ++ old_arg (s_file c).
 
 (* --- the repaired key: a list of chunks --------------------------------- *)
-Definition toks_atom (a : atom) : list bytes :=
-  match a with
+Fixpoint toks_arg (x : arg) : list bytes :=
+  match x with
   | Arr dt sh d => [t_ndarray; dt; sh; d]
   | Oth ty r => [ty; r]
-  end.
-
-Definition toks_arg (x : arg) : list bytes :=
-  match x with
-  | One a => toks_atom a
-  | Lst l => [t_list; le8 (Z.of_nat (length l))] ++ flat_map toks_atom l
+  | Lst l => [t_list; le8 (Z.of_nat (length l))] ++ flat_map toks_arg l
   end.
 
 Definition toks_kw (kv : bytes * arg) : list bytes :=
-  toks_atom (Oth t_str (fst kv)) ++ toks_arg (snd kv).
+  toks_arg (Oth t_str (fst kv)) ++ toks_arg (snd kv).
 
 Definition toks_sig (c : sig) : list bytes :=
   [t_args; le8 (Z.of_nat (length (s_pos c)))] ++ flat_map toks_arg (s_pos c)
   ++ [t_kwargs; le8 (Z.of_nat (length (s_kw c)))] ++ flat_map toks_kw (s_kw c)
-  ++ toks_atom (s_name c) ++ toks_atom (s_doc c) ++ toks_atom (s_file c).
+  ++ toks_arg (s_name c) ++ toks_arg (s_doc c) ++ toks_arg (s_file c).
 
 Definition key_new (c : sig) : bytes := flat_map chunk (toks_sig c).
 
@@ -111,24 +104,19 @@ Fixpoint beqb (a b : bytes) : bool :=
 
 Definition small (b : bytes) : bool := blen b <? 2 ^ 64.
 
-Definition wf_atom (a : atom) : bool :=
-  match a with
+Fixpoint wf_arg (x : arg) : bool :=
+  match x with
   | Arr dt sh d => small dt && small sh && small d
   | Oth ty r => negb (beqb ty t_ndarray) && negb (beqb ty t_list)
                 && small ty && small r
-  end.
-
-Definition wf_arg (x : arg) : bool :=
-  match x with
-  | One a => wf_atom a
-  | Lst l => forallb wf_atom l && (Z.of_nat (length l) <? 2 ^ 64)
+  | Lst l => forallb wf_arg l && (Z.of_nat (length l) <? 2 ^ 64)
   end.
 
 Definition wf_sig (c : sig) : bool :=
   forallb wf_arg (s_pos c) && (Z.of_nat (length (s_pos c)) <? 2 ^ 64)
   && forallb (fun kv => small (fst kv) && wf_arg (snd kv)) (s_kw c)
   && (Z.of_nat (length (s_kw c)) <? 2 ^ 64)
-  && wf_atom (s_name c) && wf_atom (s_doc c) && wf_atom (s_file c).
+  && wf_arg (s_name c) && wf_arg (s_doc c) && wf_arg (s_file c).
 
 (* ====================================================================== *)
 (* heap of mutable cells shared by parts B, D, E                           *)
@@ -677,27 +665,30 @@ End ObjCache.
 
 (* --- F1: Cache ---------------------------------------------------------- *)
 (* pool entry: (tag, b1, b2, b3): tag 0 = Arr b1 b2 b3, else Oth b1 b2 *)
-Definition dec_atom (t : Z * bytes * bytes * bytes) : atom :=
+Definition dec_atom (t : Z * bytes * bytes * bytes) : arg :=
   let '(tag, b1, b2, b3) := t in
   if tag =? 0 then Arr b1 b2 b3 else Oth b1 b2.
 
-Definition nth_atom (pool : list atom) (i : Z) : atom :=
+Definition nth_atom (pool : list arg) (i : Z) : arg :=
   nth (Z.to_nat i) pool (Oth [] []).
 
-(* argument: (0, [i]) = pool[i]; (1, [i; j; ...]) = Python list *)
-Definition dec_arg (pool : list atom) (t : Z * list Z) : arg :=
-  let '(isl, idx) := t in
-  if isl =? 0 then One (nth_atom pool (nth 0 idx 0))
-  else Lst (map (nth_atom pool) idx).
+(* argument: TA i = pool[i]; TL [...] = Python list *)
+Inductive targ := TA (i : Z) | TL (l : list targ).
 
-Definition atom_repr (a : atom) : bytes :=
-  match a with Arr _ _ d => d | Oth _ r => r end.
+Fixpoint dec_arg (pool : list arg) (t : targ) : arg :=
+  match t with
+  | TA i => nth_atom pool i
+  | TL l => Lst (map (dec_arg pool) l)
+  end.
+
+Definition atom_repr (a : arg) : bytes :=
+  match a with Arr _ _ d => d | Oth _ r => r | Lst _ => [] end.
 
 (* call: (func = (name, doc, file) pool indices, args, kwargs (name index,
    arg), fv = code of the fresh result (>= 0 value id, < 0 exception)) *)
-Definition ccall := ((Z * Z * Z) * list (Z * list Z) * list (Z * (Z * list Z)) * Z)%type.
+Definition ccall := ((Z * Z * Z) * list targ * list (Z * targ) * Z)%type.
 
-Definition dec_sig (pool : list atom) (c : ccall) : sig * Z :=
+Definition dec_sig (pool : list arg) (c : ccall) : sig * Z :=
   let '(fid, pos, kw, fv) := c in
   let '(nm, doc, file) := fid in
   ({| s_pos := map (dec_arg pool) pos;
@@ -711,7 +702,7 @@ Definition cop := (Z * ccall * Z)%type.
 Definition F_flat (a : sig * Z) : Z + Z :=
   if snd a <? 0 then inr (snd a) else inl (snd a).
 
-Definition dec_cop (pool : list atom) (o : cop) : mop (sig * Z) Z :=
+Definition dec_cop (pool : list arg) (o : cop) : mop (sig * Z) Z :=
   let '(tag, c, j) := o in
   if tag =? 0 then Call (dec_sig pool c)
   else Mut (Z.to_nat j) (fun v => -1 - v).
